@@ -175,7 +175,9 @@ def build_items(ctx, rnd):
             items.append(('case_closed', 'fn', t.encode('latin-1'), E | F.IGNORECASE, E | F.IGNORECASE, {}))
             items.append(('sep_closed', 'fn', t.encode('latin-1'), E | F.FORCEWIN, E | F.FORCEWIN, dict(asym)))
     # slash inside groups / brackets in fnmatch mode under FORCEWIN
-    for t in ('@(a/b)', '!(a/c)', 'a/b', '*(a|/)b', '[a/]b', '[!/]b', 'a\\/b', 'a\\\\b', '?(/)a'):
+    for t in ('@(a/b)', '!(a/c)', 'a/b', '*(a|/)b', '[a/]b', '[!/]b', 'a\\/b', 'a\\\\b', '?(/)a',
+              # an escaped backslash (or escaped slash) is a separator inside a bracket expression as well
+              'a[\\\\]b', 'a[!\\\\]b', 'a[\\/]b', 'a[x\\\\]b', '[\\\\]', '@(a[\\\\]b)', 'a[\\\\-]b', 'a[\\\\]', '[!\\/]a'):
         asym = {'bracket_sep_asym': True} if t in ('[a/]b', '[!/]b') else {}
         items.append(('sep_closed', 'fn', t, F.EXTMATCH | F.FORCEWIN, F.EXTMATCH | F.FORCEWIN, dict(asym)))
         items.append(('sep_closed', 'fn', t.encode(), F.EXTMATCH | F.FORCEWIN, F.EXTMATCH | F.FORCEWIN, dict(asym)))
